@@ -218,17 +218,21 @@ func oracleC13(p *RPlan, res *RResult) (*common.Fail, string) {
 				continue
 			}
 			// delivered at all?
-			dl := false
+			dl := int64(-1)
 			for _, x := range evs[i:] {
 				if x.K == "dlv" && x.Note == "busy" {
-					dl = true
+					dl = x.T
 					break
 				}
 			}
-			if !dl {
+			if dl < 0 {
 				inconclusive = "busy under saturation: the serve loop never took the indication"
 				continue
 			}
+			// Between taking the indication from the socket and obtaining the send lock the serve loop can be
+			// descheduled; transmissions in that window prove nothing. The silence must have begun within
+			// `grace` of the hand-over: only transmissions later than that, with no silence before them, count.
+			const grace = int64(100e6)
 			found := false
 			last := int64(-1)
 			after := 0
@@ -242,17 +246,17 @@ func oracleC13(p *RPlan, res *RResult) (*common.Fail, string) {
 					found = true
 					break
 				}
-				if o.T2 >= e.T {
+				if o.T >= dl+grace {
 					after++
 				}
 				last = o.T2
 			}
 			if !found {
 				if after < 2 {
-					inconclusive = "busy under saturation: fewer than two transmissions after the hand-over"
+					inconclusive = "busy under saturation: fewer than two transmissions later than 100 ms after the hand-over"
 					continue
 				}
-				return failEv(evs, i, "busy-ignored", "a busy indication announcing %d ms was taken in under saturation, %d transmissions followed, but no silence of %.3f ms appears in the transmission log after the hand-over",
+				return failEv(evs, i, "busy-ignored", "a busy indication announcing %d ms was taken in under saturation, %d transmissions started more than 100 ms later, but no silence of %.3f ms appears in the transmission log after the hand-over",
 					e.N, after, float64(wait)/1e6), ""
 			}
 		}
